@@ -109,10 +109,11 @@ pub open spec fn has_comp(p: ParsedValue, k: Key) -> bool
 pub broadcast axiom fn axiom_fk(c: ForeignKeyCell, k: Key)
     ensures #[trigger] has_var(fk_value(c), k) == fk_has_var(c, k), #[trigger] has_comp(fk_value(c), k) == fk_has_comp(c, k);
 
-/// every variable / component of `p` is required by the accumulator, and the accumulator only grew
+/// the accumulator requires afterwards exactly what it required before plus every variable / component of `p`:
+/// nothing that occurs is missing, and nothing is required that does not occur somewhere
 pub open spec fn covers(old_k: InterpolOrLit, new_k: InterpolOrLit, p: ParsedValue) -> bool {
-    &&& forall|k: Key| var_set(old_k).contains(k) || has_var(p, k) ==> #[trigger] var_set(new_k).contains(k)
-    &&& forall|k: Key| comp_set(old_k).contains(k) || has_comp(p, k) ==> #[trigger] comp_set(new_k).contains(k)
+    &&& forall|k: Key| var_set(old_k).contains(k) || has_var(p, k) <==> #[trigger] var_set(new_k).contains(k)
+    &&& forall|k: Key| comp_set(old_k).contains(k) || has_comp(p, k) <==> #[trigger] comp_set(new_k).contains(k)
 }
 
 // contracts proved in unit c08_push_count (cross-unit edges)
@@ -139,8 +140,8 @@ impl InterpolOrLit {
 }
 /// a branch list contributes what the values of its branches contribute
 pub open spec fn inner_covers<T>(old_k: InterpolOrLit, new_k: InterpolOrLit, v: Seq<(Range<T>, ParsedValue)>) -> bool {
-    &&& forall|k: Key| var_set(old_k).contains(k) || (exists|i: int| 0 <= i < v.len() && has_var((#[trigger] v[i]).1, k)) ==> #[trigger] var_set(new_k).contains(k)
-    &&& forall|k: Key| comp_set(old_k).contains(k) || (exists|i: int| 0 <= i < v.len() && has_comp((#[trigger] v[i]).1, k)) ==> #[trigger] comp_set(new_k).contains(k)
+    &&& forall|k: Key| var_set(old_k).contains(k) || (exists|i: int| 0 <= i < v.len() && has_var((#[trigger] v[i]).1, k)) <==> #[trigger] var_set(new_k).contains(k)
+    &&& forall|k: Key| comp_set(old_k).contains(k) || (exists|i: int| 0 <= i < v.len() && has_comp((#[trigger] v[i]).1, k)) <==> #[trigger] comp_set(new_k).contains(k)
 }
 pub open spec fn ranges_covers(old_k: InterpolOrLit, new_k: InterpolOrLit, r: Ranges) -> bool {
     match r.inner {
